@@ -140,7 +140,7 @@ func init() {
 		Assumptions: []string{"user functions of the standard set do not modify their arguments", "race reports are those the Go race detector produces on the interleavings that occurred"},
 		Plan: func(tier string, seed int64) *harness.Plan {
 			sys := newSysCases("quick")
-			nRand := size(tier, 60000, 1500000)
+			nRand := size(tier, 150000, 2000000)
 			nRace := size(tier, 48, 400)
 			return &harness.Plan{
 				N:         sys.n() + nRand + nRace,
